@@ -34,10 +34,6 @@ Definition model_obs (typ : Z) (s : bytes) : val :=
 Definition grammar_b (typ : Z) (s : bytes) : bool :=
   if typ =? 0 then valid_nameb s else valid_record_datab typ s.
 
-(** The known finding F12 is the only tolerated disagreement between the
-    implementation and the grammar. *)
-Definition f12_case (typ : Z) (s : bytes) : bool := (typ =? 28) && f12_shapeb s.
-
 Definition is_true (v : val) : bool := match v with VBool true => true | _ => false end.
 
 (* ------------------------------------------------------------------ *)
@@ -59,7 +55,7 @@ Definition group_grammar (g : group) : list (Z * bytes * bool) :=
     flat_map (fun ws =>
       let s := unpack ws in
       let gb := grammar_b typ s in
-      if Bool.eqb gb (is_true expected) || f12_case typ s then [] else [(typ, s, gb)]) row) rows.
+      if Bool.eqb gb (is_true expected) then [] else [(typ, s, gb)]) row) rows.
 
 (* ------------------------------------------------------------------ *)
 (** * Exhaustive families: all sequences of at most [n] tokens (at least
@@ -111,9 +107,7 @@ Definition family_model (fm : family) : list (Z * bytes * bool) * list (Z * byte
 
 Definition family_grammar (fm : family) : list (Z * bytes * bool) :=
   let '(typ, sep, toks, n, acc, flt) := fm in
-  let all := filter (fun s => negb (f12_case typ s)) (all_joined sep toks n) in
-  let obs := filter (fun s => negb (f12_case typ s)) (unrows acc) in
-  map (fun x => (typ, fst x, snd x)) (walk (grammar_b typ) all obs []).
+  map (fun x => (typ, fst x, snd x)) (walk (grammar_b typ) (all_joined sep toks n) (unrows acc) []).
 
 Definition family_size (fm : family) : Z :=
   let '(typ, sep, toks, n, acc, flt) := fm in Z.of_nat (length (all_joined sep toks n)).
